@@ -1,5 +1,5 @@
 #!/usr/bin/env python3
-"""gen_pipefile.py <seed> [scale] : op lines `kalign_file <fmt> <type> <gpoBits> <gpeBits> <tgpeBits> <file1hex> ...` for the
+"""gen_pipefile.py <seed> [scale] [opname] : op lines `kalign_file <fmt> <type> <gpoBits> <gpeBits> <tgpeBits> <file1hex> ...` for the
 file-to-file correspondence of `kalignFile` (harness/ops_pipefile.c  <->  lean/KalignModel/Model/PipelineFile.lean), to stdout.
 Seeded, no other source of randomness.  `scale` (default 1) multiplies the number of ops of every kind.
 
@@ -15,6 +15,8 @@ import os, random, sys
 sys.path.insert(0, os.path.dirname(os.path.abspath(__file__)))
 import gen_io as IO
 import gen_pipe as P
+
+OPNAME = "kalign_file"   # optional third argument, e.g. kalign_file_soft2 (same harness call, model with the run stage on SoftF32)
 
 FMTS_OK = ["fasta", "fa", "msf", "clu", "clustal", "-", "msf", "clu", "fasta"]
 FMTS_ODD = ["xyz", "aln", "FASTA", "msfclu", "fastaclu", "af", "x.fa", "CLU", "phylip"]
@@ -99,7 +101,7 @@ def op(rng, kind, files, fmt=None, typ=None, pen=None):
     if typ < -100 or typ > 100:
         typ = -1
     pen = P.penalties(rng) if pen is None else pen
-    return "kalign_file %s %d %s %s" % (fmt, typ, " ".join(pen), " ".join("!" if f is None else hx(f) for f in files))
+    return OPNAME + " %s %d %s %s" % (fmt, typ, " ".join(pen), " ".join("!" if f is None else hx(f) for f in files))
 
 
 def gen(seed, scale=1):
@@ -202,12 +204,13 @@ def gen(seed, scale=1):
                       pen=[P.DEFAULT] * 3 if rng.random() < 0.7 else None))
     for f in FMTS_OK + FMTS_ODD + ["fa", "mfa", "clumsf", "x", "cluster", "Fasta", "msf.gz"]:
         ops.append("check_format " + f)
-    ops += ["check_format", "check_format a b", "kalign_file", "kalign_file fasta -1 bf800000 bf800000 bf800000", "kalign_file fasta -1 bf800000 bf800000 bf800000 zz",
-            "kalign_file fasta 1000 bf800000 bf800000 bf800000 -", "kalign_file fasta -1 bf80000 bf800000 bf800000 -"]
+    ops += ["check_format", "check_format a b", OPNAME, OPNAME + " fasta -1 bf800000 bf800000 bf800000", OPNAME + " fasta -1 bf800000 bf800000 bf800000 zz",
+            OPNAME + " fasta 1000 bf800000 bf800000 bf800000 -", OPNAME + " fasta -1 bf80000 bf800000 bf800000 -"]
     return ops
 
 
 if __name__ == "__main__":
     seed = int(sys.argv[1]) if len(sys.argv) > 1 else 1
     scale = int(sys.argv[2]) if len(sys.argv) > 2 else 1
+    OPNAME = sys.argv[3] if len(sys.argv) > 3 else "kalign_file"
     sys.stdout.write("\n".join(gen(seed, scale)) + "\n")
